@@ -405,7 +405,8 @@ def gen_chain(seed, idx, bases, phase="chain"):
     ch["steps"] = steps
     ch["undo_undo"] = phase == "chain" and rng.random() < .3
     if phase == "abend":
-        keep = [s_ for s_ in steps[:-1] if not (s_["tool"] == "resize2fs" and s_["op"] == "shrink")]
+        keep = [s_ for s_ in steps[:-1] if (s_["tool"], s_["op"]) not in
+                (("resize2fs", "shrink"), ("tune2fs", "isize"))]
         ch["steps"] = steps = keep + steps[-1:]
         ch["ab_mode"] = rng.choice(["sim", "kill", "kill", "kill"])
         ch["ab_watch"] = "undo" if rng.random() < .25 else "dev"
@@ -606,10 +607,9 @@ def judge_restore(cx, ch, U, before, orig_len, mode, opts=None, tag="", trunc_at
     if u is None or u.num_keys == 0 or u.block_size == 0:
         # nothing recorded: the device must not have been modified at all
         info["empty"] = True
-        if pre[:orig_len] != before:
-            rg, n, tot = diff_ranges(pre, before, orig_len)
-            viol.append(("C12 %sdevice modified but nothing recorded in the undo file" % tag,
-                         "ranges %s (%d ranges, %d bytes)" % (rg, n, tot)))
+        mm = describe_mismatch(pre, before, orig_len, None, ch["offset"], trunc_at)
+        if mm:
+            info["mismatch"] = mm
         return viol, info
     info["undo"] = u.summary()
     opts = opts if opts is not None else e2undo_opts(ch)
@@ -802,8 +802,10 @@ def run_chain(cx, ch, nsteps=None, pool_dir=None, final=True):
 
 def culprit_of(root, wdir, bases_dir, ch):
     """A chain's restore mismatched: find the shortest failing prefix (its last step is the
-    culprit) by re-running prefixes."""
+    culprit) by re-running prefixes.  Prefixes whose only mismatch lies beyond a file
+    truncation are reported separately (returns p, result, truncation_seen)."""
     n = len(ch["steps"])
+    trunc = False
     for p in range(1, n + 1):
         sub = os.path.join(wdir, "min%d" % p)
         cx = Ctx(root, sub, bases_dir)
@@ -812,8 +814,11 @@ def culprit_of(root, wdir, bases_dir, ch):
         r = run_chain(cx, c2, nsteps=p)
         shutil.rmtree(sub, ignore_errors=True)
         if r.get("mismatch"):
-            return p, r
-    return n, None
+            if r["mismatch"]["beyond_trunc_only"]:
+                trunc = True
+                continue
+            return p, r, trunc
+    return n, None, trunc
 
 
 def mismatch_key(ch, res, p, mode):
@@ -826,11 +831,19 @@ def mismatch_key(ch, res, p, mode):
             "unaligned-to-undo-block"
     sr = res["steps"][p - 1] if len(res.get("steps") or []) >= p else {}
     unrec = sr.get("wrote") and not sr.get("touched_undo")
+    extra = ""
+    if sr.get("sig"):
+        extra += "; culprit run died with signal %d" % sr["sig"]
+    ub = (res.get("undo") or {}).get("block_size") or 0
+    if p >= 2 and ub >= 1024:
+        kprev = res["steps"][p - 2].get("keys") or 0
+        if kprev and kprev % (ub // 16 - 1) == 0 and sr.get("touched_undo"):
+            extra += "; culprit reopened an undo file whose last key block was exactly full"
     return ("C12 %s: device differs from the original after e2undo; culprit=%s%s; offset=%s; "
             "fs-block-size-changed-in-chain=%s; differing bytes in %s" %
             ("chain" if mode == "exact" else "chain with failed last run", step["tool"],
              " (wrote without touching its -z undo file)" if unrec else "", offc,
-             "yes" if len(res.get("fsbs") or []) > 1 else "no", mm_where(mm)))
+             "yes" if len(res.get("fsbs") or []) > 1 else "no", mm_where(mm))) + extra
 
 
 def w_chain(arg):
@@ -846,11 +859,14 @@ def w_chain(arg):
             res["viol"].append((TRUNC_KEY % "chain", "mismatch %s steps %s" % (
                 res["mismatch"], [(s_["tool"], s_["op"], s_.get("size", "")) for s_ in ch["steps"]])))
         elif res.get("mismatch"):
-            p, rmin = culprit_of(root, wdir, bases_dir, ch)
+            p, rmin, trunc = culprit_of(root, wdir, bases_dir, ch)
             use = rmin if rmin else res
             key = mismatch_key(ch, use, p, res.get("mode", "exact"))
+            if trunc:
+                res["viol"].append((TRUNC_KEY % "chain", "a prefix of this chain; steps %s" % (
+                    [(s_["tool"], s_["op"], s_.get("size", "")) for s_ in ch["steps"]])))
             # one chain, one root cause: keep only the located mismatch (and -n findings)
-            res["viol"] = [v_ for v_ in res["viol"] if "e2undo -n" in v_[0]]
+            res["viol"] = [v_ for v_ in res["viol"] if "e2undo -n" in v_[0] or "truncated" in v_[0]]
             res["viol"].append((key, "minimal failing prefix: %d of %d steps %s; mismatch %s; "
                                      "undo=%s" % (p, len(ch["steps"]),
                                                   [(s["tool"], s["op"], s.get("args") or
@@ -973,15 +989,19 @@ def w_abend(arg):
         u = parse_undo(UX)
         if u is None or not u.num_keys:
             # nothing recorded yet: nothing may have been written
-            cur = _read(cx.D)
-            if cur[:orig_len] != before:
-                rg, n, tot = diff_ranges(cur, before, orig_len)
-                res["viol"].append(("C12 abnormal end (%s, %s): device modified but nothing "
-                                    "recorded" % (mode, final["tool"]), "ranges %s" % rg))
+            mm = describe_mismatch(_read(cx.D), before, orig_len, None, ch["offset"],
+                                   min_len if min_len < orig_len else None)
+            if mm and not mm["beyond_trunc_only"]:
+                res["viol"].append((
+                    "C12 abnormal end (%s wrote without touching its -z undo file): device differs "
+                    "from the original beyond s_state/s_checksum after e2undo; offset=%s; "
+                    "differing bytes in %s" % (final["tool"], classify_offset(ch, u), mm_where(mm)),
+                    "mode %s final run %s:%s nothing recorded; mismatch %s" %
+                    (mode, final["tool"], final["op"], mm)))
             res["trivial"] = "no keys recorded"
             return res
         res["undo"] = u.summary()
-        if u.finished and mode == "sim" and r.rc in NORMAL_RC[final["tool"]]:
+        if u.finished and mode == "sim" and r.rc in NORMAL_RC[final["tool"]] and uh1 != uh0:
             res["viol"].append(("C12 UNDO_IO_SIMULATE_UNFINISHED run left a finished undo file",
                                 str(u.summary())))
         v, info = judge_restore(cx, ch, UX, before, orig_len, "abnormal",
